@@ -7,7 +7,7 @@
 EXTENDS FftFamily
 CONSTANTS Shapes, Full, Names
 VARIABLES c, out, done
-vars == <<c, out, done>>
+vars == <<c, out, done, tab>>
 
 Norms == {"backward", "forward", "ortho"}
 PMax(a, b) == IF a >= b THEN a ELSE b
@@ -65,8 +65,8 @@ CaseSet == UNION {IF name \in Names1 THEN {cc \in Cases1(name) : Valid1(cc)} ELS
 WithX(cc) == [name |-> cc.name, x |-> Input(cc.sh, cc.kind), n |-> cc.n, axis |-> cc.axis,
               s |-> cc.s, axes |-> cc.axes, norm |-> cc.norm]
 Empty == [sh |-> <<>>, v |-> <<>>]
-Init == c \in CaseSet /\ out = Empty /\ done = FALSE
-Next == ~done /\ out' = Eval(WithX(c)) /\ done' = TRUE /\ UNCHANGED c
+Init == TabInit /\ c \in CaseSet /\ out = Empty /\ done = FALSE
+Next == ~done /\ out' = Eval(WithX(c)) /\ done' = TRUE /\ UNCHANGED <<c, tab>>
 Spec == Init /\ [][Next]_vars
 
 \* the result has the documented shape
@@ -77,8 +77,14 @@ RealOut == (done /\ C2R(c.name)) => \A i \in 1..Len(out.v) : out.v[i].im = FZero
 
 \* ---- properties of the definitions (state independent; evaluated once)
 Applicable(f, p) == \A i \in 1..Len(p.v) : p.v[i].im = FZero \/ ~RealOnly(f)
-PT == [f \in AllNames |-> [p \in Probes |-> Eval(DefaultCase(f, p))]]
-NamesDistinctT ==
-  \A f \in AllNames : \A g \in AllNames \ {f} :
-     \E p \in Probes : Applicable(f, p) /\ Applicable(g, p) /\ Differ(PT[f][p], PT[g][p])
+NamesDistinct ==
+  LET pt == [f \in AllNames |-> [p \in Probes |-> Eval(DefaultCase(f, p))]]
+  IN \A f \in AllNames : \A g \in AllNames \ {f} :
+       \E p \in Probes : Applicable(f, p) /\ Applicable(g, p) /\ Differ(pt[f][p], pt[g][p])
+\* (negative control) on a single real 1-D probe the names are NOT all distinguishable
+\* (fft = fftn, rfft = rfftn, ...): TLC must reject this
+NamesDistinctOnReal1D ==
+  LET p == Input(<<4>>, "real")
+      pt == [f \in AllNames \ Names2 |-> Eval(DefaultCase(f, p))]
+  IN \A f \in AllNames \ Names2 : \A g \in (AllNames \ Names2) \ {f} : Differ(pt[f], pt[g])
 =============================================================================
